@@ -181,6 +181,8 @@ func runSchedule(system string, threads [][]string, choices []int) concResult {
 					h.OnReady(unhex(f[1]))
 				case "get":
 					answers[i] = append(answers[i], renderReadyz(h))
+				case "isready":
+					answers[i] = append(answers[i], fmt.Sprintf("R:%v", h.IsReady()))
 				}
 			}
 			c.events <- schedEvent{i, "done", ""}
